@@ -1,0 +1,14 @@
+//go:build verif
+
+package server
+
+// VerifHook, when set, is called at named points of the server so that a
+// verification harness can order goroutines deterministically. It is only
+// compiled with the "verif" build tag.
+var VerifHook func(point string)
+
+func verifPoint(point string) {
+	if h := VerifHook; h != nil {
+		h(point)
+	}
+}
